@@ -537,6 +537,8 @@ def _mutants():
     from selftest.mutate import Mutant as M
     D = "_dataloaders.py"
     return [
+        M("reverse-only-when-padded", "_datasets.py", "            window[-right_pad:] = feat[-1]\n    else:\n        window = feat[frame_idx - left:frame_idx + right + 1]\n    if reverse:\n        window = torch.flip(window, [0])", "            window[-right_pad:] = feat[-1]\n        if reverse:\n            window = torch.flip(window, [0])\n    else:\n        window = feat[frame_idx - left:frame_idx + right + 1]", "option-reverse-honoured-on-every-path-to-a-return"),
+        M("bucket-accumulator-kept-on-the-sampler", "_dataloaders.py", "batches: Dict[H, List[int]] = dict()\n        for idx in self.sampler:", "batches = self.__dict__.setdefault('_batches', dict())\n        for idx in self.sampler:", "accumulator"),
         M("empty-data-set-indexed", "_dataloaders.py", "if not len_idx:\n        return (dict(), dict())\n", "", "data-set-sized-list-indexed-under-a-guard"),
         M("zero-length-bound-divides", "_dataloaders.py", "m // max(len_bounds[j], 1)", "m // len_bounds[j]", "length-divisor-is-positive"),
         M("len-memoised-once", "_dataloaders.py", "if self._len is None or self._len[0] != epoch:\n            self._len = (epoch, _get_batch_sampler_len(self.batch_sampler))\n        return self._len[1]", "if self._len is None:\n            self._len = _get_batch_sampler_len(self.batch_sampler)\n        return self._len", "memo-keyed-by-epoch"),
